@@ -1,7 +1,7 @@
 //! C13 (runtime part): into_int_out_result / from_int_result / IntError impls.
 use crate::tok::*;
 use crate::{Mon, Rows};
-use cglue::result::{from_int_result, from_int_result_empty, into_int_out_result, into_int_result, IntError};
+use cglue::result::{from_int_result, from_int_result_empty, into_int_out_result, into_int_result, IntError, IntResult};
 use core::mem::MaybeUninit;
 
 fn one<E: IntError>(mk: &dyn Fn() -> Result<Tok, E>, is_ok: bool, x: i64, payload: &dyn Fn(&E) -> i64, mon: &mut Mon, k: usize) -> Vec<i64> {
@@ -9,7 +9,8 @@ fn one<E: IntError>(mk: &dyn Fn() -> Result<Tok, E>, is_ok: bool, x: i64, payloa
     let n = core::mem::size_of::<Tok>();
     unsafe { core::ptr::write_bytes(slot.as_mut_ptr() as *mut u8, 0xAB, n) };
     let _ = take_drops();
-    let code = into_int_out_result(mk(), &mut slot);
+    // free function and IntResult trait method alternate
+    let code = if k % 2 == 0 { into_int_out_result(mk(), &mut slot) } else { mk().into_int_out_result(&mut slot) };
     let bytes = unsafe { core::slice::from_raw_parts(slot.as_ptr() as *const u8, n) };
     let filled = bytes.iter().any(|b| *b != 0xAB);
     let d = take_drops();
@@ -30,7 +31,7 @@ fn one<E: IntError>(mk: &dyn Fn() -> Result<Tok, E>, is_ok: bool, x: i64, payloa
         let d = take_drops();
         if d.len() != is_ok as usize { mon.fail(format!("case{} success payload dropped {} times", k, d.len())); }
     }
-    let code2 = into_int_result(mk());
+    let code2 = if k % 2 == 0 { into_int_result(mk()) } else { IntResult::into_int_result(mk()) };
     let _ = take_drops();
     let e2: Result<(), E> = from_int_result_empty(code2);
     row.extend([code2 as i64, e2.is_err() as i64]);
